@@ -102,11 +102,12 @@ fn plan(sc: &Scenario) -> Plan {
     for ch in sc.script.chars() { if ch == 'F' { all.push("<failure>".into()); script.push(None); continue; } let e = if ch == 'M' { hi += 1; good.push(bip39::entropy_to_phrase(&hits[hi - 1])); hits[hi - 1].clone() } else { mi += 1; misses[mi - 1].clone() }; all.push(bip39::entropy_to_phrase(&e)); script.push(Some(e)); }
     Plan { script, good, all }
 }
-fn options(sc: &Scenario) -> cmd::new::Options {
+fn options(sc: &Scenario) -> Result<cmd::new::Options, String> {
     let j = sc.workers.to_string(); let mut a = vec!["new", "-n", "12", "--vanity-prefix", PREFIX, "-j", &j]; a.extend_from_slice(sc.extra);
     // parsed through a wrapper with `flatten`, which works whether Options derives clap's Parser or only Args
     #[derive(clap::Parser)] struct Wrap { #[clap(flatten)] options: cmd::new::Options }
-    Wrap::parse_from(a).options
+    // a selector that is refused while the arguments are parsed is an ordinary refusal (nothing runs, nothing is printed)
+    Wrap::try_parse_from(a).map(|w| w.options).map_err(|e| e.kind().to_string())
 }
 fn esc(s: &str) -> String { s.replace('\\', "\\\\").replace('"', "\\\"").replace('\n', "\\n") }
 
@@ -129,7 +130,7 @@ fn explore(sc: &Scenario, result_path: &str, checkpoint: &str, replay: bool) {
         SCRIPT.with(|s| *s.borrow_mut() = p2.script.clone()); std::sync::once_lock::new_execution();
         std::sync::mpsc::SEND_LOG.with(|l| l.borrow_mut().clear()); FAILURES.with(|f| f.set(0)); CURSORS.with(|c| c.borrow_mut().clear());
         std::sync::mpsc::SEND_HOOK.with(|h| h.set(Some(|m: &dyn rs::any::Any| m.downcast_ref::<anyhow::Result<hdwallet::mnemonic::Mnemonic>>().map(|r| match r { Ok(m) => format!("ok:{m}"), Err(_) => "err".to_string() }))));
-        let r = cmd::new::run(options(&sc2));
+        let r = match options(&sc2) { Ok(o) => cmd::new::run(o), Err(kind) => Err(anyhow::anyhow!("refused while parsing the arguments: {kind}")) };
         let out = capture_take();
         // "whichever worker finishes first": the first message put on the channel decides the outcome
         let first = std::sync::mpsc::SEND_LOG.with(|l| l.borrow().first().cloned());
